@@ -65,6 +65,20 @@ def gen_bars(r, n: int, qprec: int, start_px: D, vols: List[D], t0: int = 0, ste
     return out
 
 
+def second_feed(bars: Dict[str, List], pname: str, span: int = 2) -> Dict[str, List]:
+    """A coarser feed of the same pair, aggregated from the fine one: every bar covers `span` fine bars and closes
+    together with the last of them (a 2 h feed next to the 1 h feed)."""
+    rows = bars[pname]
+    out = []
+    for i in range(span - 1, len(rows), span):
+        grp = rows[i - span + 1: i + 1]
+        if any(b[0] - a[0] != 1 for a, b in zip(grp, grp[1:])):
+            continue          # a gap in the fine feed: no coarse bar for this stretch
+        out.append([grp[-1][0], grp[0][1], _s(max(D(g[2]) for g in grp)), _s(min(D(g[3]) for g in grp)), grp[-1][4],
+                    _s(sum((D(g[5]) for g in grp), D(0))), span])
+    return {pname: out} if out else {}
+
+
 def _cond(r, symbols: Dict[str, int], quote: str, borrowed: Optional[str] = None) -> Dict[str, Any]:
     isym = r.choice([quote, quote, borrowed or quote])
     p = symbols[isym]
@@ -167,6 +181,8 @@ def gen_scenario(r, cls: str) -> Dict[str, Any]:
     # bars may summarise more than the spacing between them (e.g. 2 h or 4 h bars published every hour)
     sc["bar_hours"] = {pname: r.choice([1, 1, 1, 2, 4]) for pname in bars}
 
+    if cls == "ample" and r.random() < 0.2:
+        sc["bars2"] = second_feed(bars, r.choice(list(bars)))
     # ---- initial balances ----------------------------------------------------------------
     init = {}
     if cls == "ample":
